@@ -4,7 +4,8 @@ set -e
 cd "$(dirname "$0")"
 export CARGO_NET_OFFLINE=true
 mkdir -p .cache
-(cd coq && coq_makefile -f _CoqProject -o Makefile && timeout 3000 make -j16)
+python3 -c "import sys; sys.path.insert(0,'lib'); import vf; vf.coq_ensure_makefile()"
+(cd coq && timeout 3000 make -j16)
 python3 - <<'PY'
 import sys, os
 sys.path.insert(0, "lib"); sys.path.insert(0, ".")
